@@ -4,8 +4,8 @@ from common import sx, rng_for
 
 ID = 'C19'
 RULE = ('run_timeout is called with generated worker functions: sleeping / busy-looping for a duration that sweeps across the limit '
-        '(0.1x .. 3x, incl. equal), returning a value (7, None, 0, False, an empty string or list, 0.0) or raising (KeyError, MemoryError and a subclass, ValueError, RuntimeError, ArithmeticError), swallowing the injected exception once (blanket except Exception) '
-        'and carrying on, blocking in one native sleep, nested inside another run_timeout, and back-to-back after a timeout; the '
+        '(0.1x .. 3x, incl. equal), returning a value (7, None, 0, False, an empty string or list, 0.0) or raising one particular exception object (KeyError, MemoryError and a subclass, ValueError, RuntimeError, ArithmeticError, TimeoutError, multiprocessing.TimeoutError, SystemExit, GeneratorExit, KeyboardInterrupt: the caller must get that very object), guarding every step with a blanket except Exception (which must never see the interrupt), '
+        'nested inside a run_timeout with a shorter limit, blocking in one native sleep, nested inside another run_timeout, and back-to-back after a timeout; the '
         'observed outcome class must be in the set the extracted `allowed` gives for (duration, limit, jitter tolerance); after '
         'the call returns the worker function must not be executing any more; the caller must see nothing but the result, the '
         'own exception of the function or TimeoutError; a later call must be unaffected; non-trivial = duration within 2x of the '
@@ -14,7 +14,7 @@ TRUSTED = ['wall-clock durations are measured with a jitter tolerance of 60 ms +
            'are accepted']
 PARTIAL = ['GIL scheduling, delivery latency of PyThreadState_SetAsyncExc and native blocking are runtime behaviour the LTS does not '
            'exhibit; the theorems are about the protocol logic, the runs test the real threads']
-KINDS = ['sleep', 'busy', 'raise', 'swallow', 'native', 'nested', 'backtoback']
+KINDS = ['sleep', 'busy', 'raise', 'swallow', 'native', 'nested', 'backtoback', 'nested-short', 'raise']
 # what the worker function returns / raises (index = the value / exception number of the model's program)
 RET = [7, None, 0, False, '', [], 0.0]
 
@@ -23,7 +23,12 @@ class _OwnMemoryError(MemoryError):
     pass
 
 
-EXC = [KeyError, MemoryError, _OwnMemoryError, ValueError, RuntimeError, ArithmeticError]
+import multiprocessing as _mp
+
+# since 7c20c98 the function's own exception is re-raised whatever its type: also the ones the limiter uses internally or
+# that are not Exception subclasses
+EXC = [KeyError, MemoryError, _OwnMemoryError, ValueError, RuntimeError, ArithmeticError, TimeoutError, _mp.TimeoutError,
+       SystemExit, GeneratorExit, KeyboardInterrupt]
 
 
 def batches(tier, seed):
@@ -73,10 +78,15 @@ def _run_once(case):
     limit = case['limit_ms'] / 1000.0
     dur = case['dur_ms'] / 1000.0
     kind = case['kind']
+    if kind == 'nested-short':
+        # the function outlasts both limits: outer limit < inner limit (2x) < duration (at least 5x)
+        dur = max(dur, 5 * limit)
+        case = dict(case, dur_ms=int(dur * 1000))
     running = threading.Event()
     swallowed = []
     ret_i, exc_i = case.get('ret', 0) % len(RET), case.get('exc', 0) % len(EXC)
     ret_v = RET[ret_i]
+    own_exc = EXC[exc_i]('own')
 
     def body():
         running.set()
@@ -103,7 +113,7 @@ def _run_once(case):
             while time.perf_counter() - t0 < dur:
                 time.sleep(0.003)
             if kind == 'raise':
-                raise EXC[exc_i]('own')
+                raise own_exc
             return ret_v
         finally:
             running.clear()
@@ -119,17 +129,22 @@ def _run_once(case):
     def call():
         if kind == 'nested':
             return run_timeout(limit * 4 + 1.0, lambda: run_timeout(limit, body))
+        if kind == 'nested-short':
+            # the outer limit is the short one: its interrupt reaches the thread that waits for the inner result
+            return run_timeout(limit, lambda: run_timeout(limit * 2, body))
         return run_timeout(limit, body)
     t0 = time.perf_counter()
     try:
         r = call()
         same = [j for j, v in enumerate(RET) if type(v) is type(r) and v == r]
         obs = ['value', same[0] if same else 99]
-    except TimeoutError:
-        obs = 'timeout'
     except BaseException as e:
-        if kind == 'raise' and type(e) is EXC[exc_i]:
+        if kind == 'raise' and e is own_exc:
             obs = ['raise', exc_i]
+        elif type(e) is TimeoutError and e is not own_exc:
+            obs = 'timeout'
+        elif kind == 'raise' and type(e) is EXC[exc_i]:
+            return {'fail': {'clause': 'own-exception-replaced', 'detail': 'the function raised %r, the caller got another %r' % (own_exc, e)}, 'tags': ['kind:' + kind]}
         else:
             return {'fail': {'clause': 'caller-sees-foreign-exception:%s' % type(e).__name__, 'detail': '%s: %s' % (type(e).__name__, e)}, 'tags': ['kind:' + kind]}
     wall = time.perf_counter() - t0
@@ -140,6 +155,8 @@ def _run_once(case):
         time.sleep(0.05)
         if running.is_set():
             return {'fail': {'clause': 'worker-still-running-after-return', 'detail': 'kind %s dur %d ms limit %d ms, observed %s after %.0f ms' % (kind, case['dur_ms'], case['limit_ms'], obs, wall * 1000)}, 'tags': tags}
+    if swallowed:
+        return {'fail': {'clause': 'interrupt-arrives-as-ordinary-exception', 'detail': 'a blanket except Exception inside the function caught the interrupt %d time(s)' % len(swallowed)}, 'tags': tags}
     # a later call is unaffected
     if kind == 'backtoback' or obs == 'timeout':
         try:
@@ -150,8 +167,9 @@ def _run_once(case):
             return {'fail': {'clause': 'later-call-affected', 'detail': 'returned %r' % (r2,)}, 'tags': tags}
     res = ['raise', exc_i] if kind == 'raise' else ['value', ret_i]
     tol = 60 + case['limit_ms'] // 2
-    q = sx(['timeout_allowed', res, kind == 'swallow', max(1, case['dur_ms']), case['limit_ms'], tol])
-    return {'queries': [q], 'impl': obs, 'nontrivial': kind in ('swallow', 'native', 'nested') or 0.5 <= (case['dur_ms'] + 1) / case['limit_ms'] <= 2.0,
+    # since 960afd7 the interrupt is a KeyboardInterrupt, which a blanket `except Exception` does not swallow
+    q = sx(['timeout_allowed', res, False, max(1, case['dur_ms']), case['limit_ms'], tol])
+    return {'queries': [q], 'impl': obs, 'nontrivial': kind in ('swallow', 'native', 'nested', 'nested-short') or 0.5 <= (case['dur_ms'] + 1) / case['limit_ms'] <= 2.0,
             'tags': tags, 'wall_ms': int(wall * 1000)}
 
 
